@@ -3,10 +3,6 @@
 # sources that must never be compiled with a sanitizer (the scheduler's hand-offs have to stay invisible)
 UNINSTRUMENTED = {"engine/sched.cpp"}
 
-HARNESSES = {
-    "c20_orderstats": {"src": ["harness/c20_orderstats.cpp"]},
-}
-
 HOOKS = {
     "guard": "NANO_VERIF",
     "enable": "every verification build of libnano and of the harnesses passes -DNANO_VERIF (bin/check, GUARD); no source "
@@ -36,32 +32,16 @@ NOTES = ("All checks run through bin/check, which rebuilds libnano (static libra
 
 NOT_APPLICABLE = {}
 
-CHECKS = {
-    "C20": {
-        "level": "exploration",
-        "engine": "E3 lattice",
-        "technique": "bounded-exhaustive enumeration of value lists x percentages x threshold multisets x queries "
-                     "against a sorted-array / exact-rational reference",
-        "level_text": "every list of length <= 4 (quick) / <= 6 (thorough) over an 8-value alphabet with ties and negative "
-                      "values is checked at all 401 percentages of the 0.25 grid and against all 164 threshold multisets; "
-                      "this is a complete small-scope enumeration, not a proof for longer lists or other values",
-        "level_note": "trusted: the reference (std::sort + exact integer position arithmetic), g++ 12, the alphabets as "
-                      "representatives of the quantifier domain",
-        "rule": "bounded-exhaustive enumeration (E3): every value list up to the stated length over the value alphabet x "
-                "every percentage on the 0.25 grid / every threshold multiset of size 1..3 / every query value; a case is "
-                "non-trivial when the percentile position is fractional between two distinct neighbours, when a stored "
-                "value lies exactly on a threshold, or when the bin() query is a non-integer or equals a threshold",
-        "assumptions": ["values/thresholds outside the alphabets and lists longer than the bound are not covered "
-                        "(three structured lists of 101..500 values are added as a finite list)",
-                        "means are compared with 1e-12 relative tolerance, everything else exactly"],
-        "deadline": {"quick": 300, "thorough": 1500},
-        "stages": [
-            {"name": "pct", "harness": "c20_orderstats", "args": ["--stage", "pct"],
-             "what": "percentile / percentile_sorted / median / ml::store_stats vs exact-rational position in the sorted list"},
-            {"name": "hist", "harness": "c20_orderstats", "args": ["--stage", "hist"],
-             "what": "histogram bins (direct, ratios, percentiles, exponents) vs partition by the counting rule"},
-            {"name": "bin", "harness": "c20_orderstats", "args": ["--stage", "bin"], "shards": 4,
-             "what": "histogram_t::bin(v) vs number of thresholds <= v"},
-        ],
-    },
-}
+# per-property tables live in bin/checks.d/<ID>.py, each defining HARNESSES and CHECKS
+import glob as _glob
+import importlib.util as _ilu
+import os as _os
+
+HARNESSES = {}
+CHECKS = {}
+for _path in sorted(_glob.glob(_os.path.join(_os.path.dirname(_os.path.abspath(__file__)), "checks.d", "C*.py"))):
+    _spec = _ilu.spec_from_file_location("checks_d_" + _os.path.basename(_path)[:-3], _path)
+    _mod = _ilu.module_from_spec(_spec)
+    _spec.loader.exec_module(_mod)
+    HARNESSES.update(getattr(_mod, "HARNESSES", {}))
+    CHECKS.update(getattr(_mod, "CHECKS", {}))
